@@ -99,6 +99,7 @@ class GenOpts:
     mc_decoys: str = 'random'       # random | both | literal: decoy events called Claim/Release
     mc_shape: Optional[int] = None  # parameter directions of the claim/release events (cycled)
     many: float = 0.04              # probability of a two-digit count (events, formals, ports)
+    ref_externs: float = 0.25       # externs whose C++ type is a reference (in-parameters only)
 
 
 @dataclass
@@ -201,7 +202,10 @@ class ModelGen:
     def add_extern(self, node: Optional[NsNode] = None) -> Tuple[List[str], M.Extern]:
         node = node or self._pick_node()
         name = self._name(node)
-        x = M.Extern([name], f'::vx::T{self.extern_counter}')
+        # `extern Text $const std::string&$`: legal for parameters that are only ever passed in
+        as_ref = bool(self.externs) and self.rng.random() < self.o.ref_externs
+        x = M.Extern([name], f'const ::vx::T{self.extern_counter}&' if as_ref
+                     else f'::vx::T{self.extern_counter}')
         self.extern_counter += 1
         self._place(node, x)
         ent = (node.fqn + [name], x)
@@ -303,7 +307,8 @@ class ModelGen:
                 ref = self._ref(fqn, xt, 'externs')
                 if ref is None:
                     continue
-                fdir = 'in' if direction == 'out' else rng.choice(['in', 'out', 'inout'])
+                fdir = 'in' if direction == 'out' or _x.data.endswith('&') else \
+                    rng.choice(['in', 'out', 'inout'])
                 out.append(M.Formal(fresh(rng, ftaken, rng.choice(['single', 'snake', 'digit'])),
                                     ref, fdir))
             return out
@@ -317,7 +322,8 @@ class ModelGen:
             for fdir in directions:
                 if not self.externs:
                     break
-                xt, _x = rng.choice(self.externs)
+                xt, _x = rng.choice([e for e in self.externs
+                                     if fdir == 'in' or not e[1].data.endswith('&')])
                 ref = self._ref(fqn, xt, 'externs')
                 if ref is not None:
                     out.append(M.Formal(fresh(rng, ftaken, rng.choice(['single', 'snake', 'digit'])),
@@ -394,7 +400,8 @@ class ModelGen:
                 ref = self._ref(fqn, xt, 'externs')
                 if ref is None:
                     continue
-                fdir = 'in' if direction == 'out' else rng.choice(['in', 'out', 'inout'])
+                fdir = 'in' if direction == 'out' or _x.data.endswith('&') else \
+                    rng.choice(['in', 'out', 'inout'])
                 formals.append(M.Formal(fresh(rng, ftaken, rng.choice(
                     ['single', 'snake', 'digit', 'camel', 'under'])), ref, fdir))
             reply = M.Ref(['void'])
